@@ -408,6 +408,7 @@ func mergeResult(m *Merged, r Result) {
 func runShard(p *Property, bin, tier string, seed int64, sr *shardRun, nsh int, work string, timeout time.Duration, only string) {
 	skipTo := 0
 	const maxAttempts = 40
+	memDeaths := 0
 	silentDeaths := map[int]int{} // ordinal of the open case (-1: outside any case) -> deaths without any Go runtime message
 	for sr.attempts < maxAttempts {
 		att := sr.attempts
@@ -511,6 +512,15 @@ func runShard(p *Property, bin, tier string, seed int64, sr *shardRun, nsh int, 
 		sr.crashes = append(sr.crashes, Violation{Key: key, CaseID: id, Shard: sr.shard, What: "worker process killed by a Go runtime failure: " + what, Input: input, Detail: det})
 		if only != "" {
 			return
+		}
+		if key == "memory-guard" {
+			// each such death costs the time it takes to map gigabytes: three are enough evidence for one shard
+			memDeaths++
+			if memDeaths >= 3 {
+				sr.notes = append(sr.notes, fmt.Sprintf("shard %d stopped early after %d cases that exhausted the memory guard", sr.shard, memDeaths))
+				sr.complete = true
+				return
+			}
 		}
 		skipTo = ord + 1
 	}
